@@ -508,6 +508,22 @@ func partB(r *ev.Run, distinct map[string]bool) {
 								} else {
 									r.Outcome("corrupt-rejected")
 								}
+								// a rejected unit must not stop the receiver: the SAME validator(s) must still accept the
+								// honest unit of that index afterwards (unless the corrupted unit was the honest one's twin
+								// that got accepted, which is reported above)
+								if !pan && verr != nil {
+									var herr error
+									hp, hm := ev.Guard(func() { herr = v.validate(cloneUnit(&units[i]), sender) })
+									r.Add("evaluations", 1)
+									if hp {
+										r.Violate("validate-panic honest-after-rejected "+c.name, map[string]any{"case": ck, "panic": hm})
+									} else if herr != nil {
+										r.Outcome("honest-refused-after-rejected-unit")
+										r.Violate("rejected-unit-blocks-the-honest-unit-of-its-index "+c.name, map[string]any{"case": ck, "err": herr.Error()})
+									} else {
+										r.Outcome("honest-accepted-after-rejected-unit")
+									}
+								}
 								// a corrupted unit can never make reconstruction deliver a different message
 								in := make([]*propeller.Unit, len(units))
 								for j := range units {
@@ -548,6 +564,19 @@ func partB(r *ev.Run, distinct map[string]bool) {
 								r.Violate("validate-panic wrong-sender", map[string]any{"case": ck, "panic": pm})
 							} else if verr == nil {
 								r.Violate("wrong-sender-accepted", map[string]any{"case": ck})
+							} else {
+								// any peer can send such a unit: it must not use up the shard index
+								owner, _ := sched.PeerForShardIndex(ids[pubIdx].id, units[i].ShardIndex)
+								legit := owner
+								if owner == ids[local].id {
+									legit = ids[pubIdx].id
+								}
+								var herr error
+								hp, _ := ev.Guard(func() { herr = v.validate(cloneUnit(&units[i]), legit) })
+								r.Add("evaluations", 1)
+								if hp || herr != nil {
+									r.Violate("rejected-unit-blocks-the-honest-unit-of-its-index wrong-sender", map[string]any{"case": ck, "err": fmt.Sprint(herr)})
+								}
 							}
 						}
 					}
